@@ -411,7 +411,7 @@ func (e *Exec) ghost(st State, name string, sort Sort) *Term {
 	return v
 }
 
-var counterKinds = map[string]bool{"nsend": true, "nsent": true, "nrecv": true, "nclose": true, "nspawn": true,
+var counterKinds = map[string]bool{"nsend": true, "nsent": true, "nrecv": true, "nrecvc": true, "nclose": true, "nspawn": true,
 	"nsocksend": true, "nsockclose": true, "ndial": true, "ndialfail": true, "nwrite": true, "ndatagram": true, "nconnclose": true, "stream.pos": true, "llen": true, "lpush": true, "lpopfront": true, "lpopback": true, "nticker": true, "nafter": true, "nafterfunc": true, "ntickerstop": true, "wg": true, "nclosesock": true}
 
 // ghostOfFresh: the ghost variable belongs to an object created during this execution.
@@ -459,8 +459,24 @@ func (e *Exec) ghostKeyOf(env *cenv, it ghostItem) string {
 	return gkey(it.Kind, t)
 }
 
+// expandGhostNames adds the companion counters implied by a ghost kind or key:
+// nsend -> nsocksend (global count), nrecv[@id] -> nrecvc[@id] (receives that found the channel closed).
+func expandGhostNames(names []string) []string {
+	out := append([]string{}, names...)
+	for _, k := range names {
+		if strings.HasPrefix(k, "nsend") {
+			out = append(out, "nsocksend")
+		}
+		if strings.HasPrefix(k, "nrecv") && !strings.HasPrefix(k, "nrecvc") {
+			out = append(out, "nrecvc"+k[len("nrecv"):])
+		}
+	}
+	return out
+}
+
 // havocGhostKinds forgets the ghost variables of the given kinds only.
 func (e *Exec) havocGhostKinds(st State, kinds []string) State {
+	kinds = expandGhostNames(kinds)
 	want := map[string]bool{}
 	for _, k := range kinds {
 		want[k] = true
@@ -561,7 +577,7 @@ func (e *Exec) recvValue(st State, ch *Term, ET types.Type, pos token.Pos) (open
 	for i, t := range v {
 		open = open.setGhost(fmt.Sprintf("%s#%d", gkey("lastrecv", ch), i), t)
 	}
-	closed = st
+	closed = e.ghostInc(st, gkey("nrecvc", ch))
 	z = e.zeroVal(ET)
 	return
 }
